@@ -40,7 +40,9 @@ def plan(prop, tier):
         if not q:
             jobs += [gram("C01", "qe", "c", "qe", 5, []), gram("C01", "t1", "c", "t1", 5, []),
                      gram("C01", "t2", "c", "t2", 5, ["--one", "0,1", "--cost", "0"]),
-                     gram("C01", "q-ov1", "c", "q", 5, ["--ovs", "1"])]
+                     gram("C01", "q-ov1", "c", "q", 5, ["--ovs", "1"]),
+                     gram("C01", "q-perm", "c", "q", 5, ["--ovs", "101,102,103,104,105", "--la", "1,2"]),
+                     gram("C01", "t2-perm", "c", "t2", 5, ["--ovs", ",".join(str(100 + k) for k in range(1, 24)), "--la", "1", "--one", "1", "--cost", "0", "--rec", "0"])]
         P = dict(base, jobs=jobs, nontrivial_key="inputs_sentence",
                  rule="every canonical grammar of the family accepted by yaep_read_grammar x every token string of length <= n over its terminals x 24 flag vectors (lookahead 0..2 x one_parse x cost x recovery); oracle: reference span-fixpoint recogniser; distinct_nontrivial = distinct (grammar,input) pairs that are sentences",
                  bounds={"families": [FAM_DESC[j.args[2]] for j in jobs], "max_input_length": 4 if q else 6, "flag_vectors": 24},
